@@ -1367,7 +1367,8 @@ def run(tier, only=None):
     w12(rep, f_foam)
     from . import c19_float, immed
     immed.report(rep, "W14", units=["foam.c", "sexpr.c"], floor=2)      # integers of the text form (.fm) read back in full
-    c19_float.sentinels(rep, "W13")      # the float literals of a saved unit: reserved exponents of the portable form
+    c19_float.sentinels(rep, "W13")
+    c19_float.constant_precision(rep, "W15")   # float constants of the text form keep their value      # the float literals of a saved unit: reserved exponents of the portable form
     f_sefo = common.extract("sefo.c", all_trees=True)
     w6(rep, f_sefo, widths)
     rep.assumptions += ["W7: for Lex/RElt/RRElt/EElt/IRElt/TRElt nodes the letter i of argf marks exactly the fields written with the "
